@@ -117,6 +117,31 @@ class Check:
                 self.reach_witness[s['name']] = True
         return exp
 
+    def run_conformance(self, workflow=True, stubs=True, patterns=None):
+        """Differential checks of the shims against the real libraries (vf.conform)."""
+        from . import conform
+        rec = {}
+        if stubs:
+            p = conform.stubs()
+            rec['stub_mismatches'] = p
+            for x in p:
+                self.harness_errors.append('stub does not conform to the real library: ' + x)
+        if workflow:
+            p, n = conform.workflow()
+            rec['workflow_mismatches'] = p
+            rec['sql_statements_compared'] = n
+            for x in p:
+                self.harness_errors.append('symsql/nplite workflow differs from sqlite3/numpy: ' + x)
+        if patterns:
+            from checks import dbstate
+            p, n = dbstate.conform_patterns(patterns)
+            rec['inv_load_patterns_compared_with_real_load'] = n
+            rec['inv_load_mismatches'] = p
+            for x in p:
+                self.harness_errors.append('Inv_load constructor differs from the real load: ' + x)
+        self.extra['conformance'] = rec
+        return rec
+
     # -- finishing -----------------------------------------------------------------
     def triage(self):
         known = load_known_findings()
@@ -167,9 +192,15 @@ class Check:
     def evidence(self):
         states = sum(e['paths'] for e in self.explorations)
         queries = sum(e['queries'] for e in self.explorations)
-        mods = sorted({m for m, _ in self.units})
+        mods = sorted({m for m, _ in self.units if not m.endswith('.sql')})
         functions = []
         for m, fn in self.units:
+            if m.endswith('.sql'):
+                path = os.path.join(loader.REPO, 'spowtd', 'schema.sql')
+                with open(path, 'rb') as f:
+                    dg = hashlib.sha256(f.read()).hexdigest()[:16]
+                functions.append({'file': 'spowtd/schema.sql', 'object': fn, 'digest': dg})
+                continue
             ln = loader.function_lines(m, fn)
             functions.append({'module': m, 'function': fn, 'lines': list(ln) if ln else None})
         cov = {
